@@ -22,7 +22,9 @@ MissingKeyword == <<"put 5 foo", "let foo 5", "build foo", "knock foo", "build f
 TwoStatements == <<"say 1 say 2", "put 5 into foo say foo", "build foo up say foo", "break continue", "listen to foo listen to bar",
                    "say 1 put 2 into foo", "roll foo rock foo", "turn foo up turn foo down", "give back 1 give back 2", "say 1 else">>
 BadStart == <<"ab1 is 5", "_x is 5", "5 is foo", "a1 says hi", "x_y is 5", "+ 1", "and foo", "with 5", "into foo", "back", "up", "taking 1",
-              "is 5", ", say 1", "'s 5", "5", "\"str\" is 5", "`", "1abc">>
+              "is 5", ", say 1", "'s 5", "5", "\"str\" is 5", "`", "1abc",
+              \* letters followed or interrupted by a character that is no letter (euro sign, one half, emoji, control character)
+              "ab` is 5", "x@ is 5", "foo#bar is 5", "pr\fce is 5", "a`b says hi", "~t~` is 5">>
 Unterminated == <<"\"open", "say \"open", "put \"x into foo">>
 
 All == << <<"missing operand", MissingOperand>>, <<"missing keyword", MissingKeyword>>, <<"two statements", TwoStatements>>,
